@@ -8,7 +8,9 @@ from .. import gen_sched, sched, sched_comb, sched_prog as sp
 PROP = "C08"
 THEOREMS = ["C08_gather", "C08_gather_mixed", "C08_unwrap_mixed", "C08_gather_once", "C08_chain", "C08_chain_done", "C08_chain_plain", "C08_unwrap",
             "C08_confluence", "C08_termination", "C08_unexpected", "C08_blocking_configs",
-            "C08_blocking_configs_fail"]
+            "C08_blocking_configs_fail", "C08_progress", "C08_schedule_bounded", "C08_complete_schedule_exists",
+            "C08_refine_gather", "C08_refine_gather_fire", "C08_refine_chain", "C08_refine_chain_else",
+            "C08_refine_unwrap"]
 AXIOMS_OK = []
 RUN_MODULE = "Exec.RuntimeMachine Exec.RuntimeFutures Run.C08run"
 AGREE = "agree_C08"
@@ -23,7 +25,7 @@ LEVEL_NOTE = ("Theorems are about two Gallina models: Exec/RuntimeFutures.v (cal
               "proved); asyncio.gather / await and concurrent.futures.Future are modelled by their documented "
               "contract; cancellation is outside the quantifier.")
 RULE = ("behaviour-tree programs with 1-6 deferred resolver calls (modes S/P/C, nested deferred values, objects, "
-        "lists, non-null, ResolverError / RuntimeError at any field) x 5 configurations (BlockingExecutor; Executor on BlockingRuntime, AsyncIORuntime without and with thread offload, ThreadPoolRuntime); asyncio and thread pool "
+        "lists, non-null, custom-scalar leaves that serialise to null or whose serialisation raises, ResolverError / RuntimeError at any field) x 5 configurations (BlockingExecutor; Executor on BlockingRuntime, AsyncIORuntime without and with thread offload, ThreadPoolRuntime); asyncio and thread pool "
         "under every admissible completion order (depth-first replay, exhaustive up to the tier's bound, sampled "
         "beyond); thread pool also with every subset of the submitted calls completing before submit returns "
         "(configuration poole: small operations, failures at every position, exhaustive); non-trivial = a deferred configuration with at least two completion orders or a failure; "
@@ -58,6 +60,14 @@ def _corpus_programs():
         ["obj", [F(1, "C", I(1)), F(2, "S", ["null"], nn=True, sh="in")]], ["null"],
         ["obj", [F(1, "C", ["err"], sh="i"), F(2, "S", I(5), nn=True)]]]], nn=True)]})
     ps.append({"op": "mutation", "fields": [F(0, "C", ["obj", [F(1, "C", I(1))]]), F(2, "C", ["err"], sh="i"), F(3, "P", I(3))]})
+    # a leaf that *completes* to null from a non-null resolved value (custom scalar serialising to
+    # null) at non-null positions, immediate and deferred; a serialisation that raises
+    ps.append({"op": "query", "fields": [F(0, "S", ["snull"], nn=True), F(1, "C", ["snull"], nn=True), F(2, "P", ["snull"]),
+                                         F(3, "S", ["list", True, "sc", [["int", 1], ["snull"], ["null"]]], nn=True),
+                                         F(4, "C", ["list", True, "sc", [["snull"]]])]})
+    ps.append({"op": "query", "fields": [F(0, "C", ["obj", [F(1, "S", ["snull"], nn=True), F(2, "C", ["sbad", 11])]]),
+                                         F(3, "C", I(3))]})
+    ps.append({"op": "query", "fields": [F(0, "S", ["sbad", 12], nn=True), F(1, "C", I(1))]})
     return ps
 
 
